@@ -23,11 +23,21 @@ Definition to_member (a : amember) : member :=
   mk_member (am_name a) (am_dir a) 0
     (if N.eqb (am_kind a) 0 then BTsm (am_blocks a) else if N.eqb (am_kind a) 1 then BTomb (am_tombs a) else BOther).
 
+(* one round of an incremental sequence: the source state when the backup is taken, the archive,
+   and the destination after the archive has been restored over what it already held *)
+Record round := mk_round {
+  r_files : list sfile; r_cache : kvs; r_next_stem : name; r_has_since : bool; r_since : Z;
+  r_src : kvs; r_backup_err : bool; r_members : list amember; r_archive_ok : bool;
+  r_restore_err : bool; r_dst_ok : bool; r_dst : kvs; r_dst_files : list (name * bool)
+}.
+
 Inductive case :=
-| mk_case (mode : N)                       (* 0 full, 1 import, 2 since, 3 cut, 4 rpc, 5 export, 6 busy *)
+| mk_incr (base : name) (rounds : list round)
+| mk_case (mode : N)                       (* 0 full, 1 import, 2 since, 3 cut, 4 rpc, 5 export, 6 busy, 7 source fault, 8 source fault through the RPC *)
           (files : list sfile) (cache : kvs) (busy : bool)
           (next_stem base : name)
           (since exlo exhi cut total : Z)
+          (src_fail : Z) (src_fail_hdr : bool)  (* the source fails after this many complete members (-1: no fault); header of the next one written *)
           (during : list (key * tv))
           (extra : list amember)           (* members injected in front of the archive before the restore *)
           (src_before src_after : kvs)
@@ -109,14 +119,45 @@ Definition expected_since (base : name) (since : Z) (files : list sfile) : list 
 
 Definition now_oracle : Z := 2 ^ 62.   (* mtime of a file written by the backup's own snapshot: newer than any [since] used *)
 
+(* incremental sequences: the model restores each archive over the destination directory it
+   computed for the previous round; the property: after every round the destination reads like
+   the source did when that round's backup was taken *)
+Fixpoint run_rounds (base : name) (d : dshard) (rounds : list round) : bool * bool :=
+  match rounds with
+  | [] => (true, true)
+  | r :: rest =>
+      let src := mk_shard (r_files r) {| c_snap := []; c_hot := r_cache r |} in
+      let wf := wf_files (sh_files (write_snapshot (r_next_stem r) now_oracle src)) && wf_blocks (r_files r) in
+      let spec := negb (r_backup_err r) && negb (r_restore_err r) && r_dst_ok r && same_reads (r_dst r) (r_src r) in
+      match backup SnapIdle (r_next_stem r) now_oracle base (if r_has_since r then Some (r_since r) else None) src with
+      | None => (false, false)
+      | Some (_, ms) =>
+          let res := restore base d ms (length ms) EndMarker in
+          let d' := match res with Some x => x | None => d end in
+          let agree := wf && same_reads (shard_reads src) (r_src r) &&
+                       negb (r_backup_err r) && r_archive_ok r &&
+                       list_eqb member_equiv ms (map to_member (r_members r)) &&
+                       Bool.eqb (r_restore_err r) (match res with Some _ => false | None => true end) &&
+                       r_dst_ok r && same_reads (dshard_reads d') (r_dst r) &&
+                       list_eqb name_flag_eqb (dshard_file_list d') (r_dst_files r) in
+          let '(a, s) := run_rounds base d' rest in
+          (agree && a, spec && s)
+      end
+  end.
+
+Definition check_incr (base : name) (rounds : list round) : N :=
+  let '(a, s) := run_rounds base empty_dshard rounds in code a s.
+
 Definition check_case (c : case) : N :=
   match c with
-  | mk_case mode files cache busy next_stem base since exlo exhi cut total during extra
+  | mk_incr base rounds => check_incr base rounds
+  | mk_case mode files cache busy next_stem base since exlo exhi cut total src_fail src_fail_hdr during extra
             src_before src_after backup_err members archive_ok restore_err dst_ok dst dst_files advertised =>
     let src0 := mk_shard files {| c_snap := []; c_hot := cache |} in
     let oracle := if busy then SnapBusy else SnapIdle in
     let cutk := if cut <? 0 then None else Some cut in
-    let is_cut := (0 <=? cut) && (cut <? total) in
+    let is_cut := ((0 <=? cut) && (cut <? total)) || (0 <=? src_fail) in
+    let sfail := if src_fail <? 0 then None else Some (Z.to_nat src_fail, src_fail_hdr) in
     let obs_members := map to_member members in
     let sizes := map am_size members in
     (* -- what the model predicts for one candidate source state -- *)
@@ -131,11 +172,14 @@ Definition check_case (c : case) : N :=
           let ms := map to_member extra ++ ms0 in
           let members_agree := list_eqb member_equiv ms obs_members in
           let '(res, adv) :=
-            if N.eqb mode 4 then
-              let r := copy_shard (mk_faults false false oracle cutk false false) next_stem now_oracle base sizes src None 1%N [] in
+            if N.eqb mode 4 || N.eqb mode 8 then
+              let r := copy_shard (mk_faults false false oracle cutk sfail false false) next_stem now_oracle base sizes src None 1%N [] in
               ((if cr_rpc_ok r then cr_dst r else None), cr_rpc_ok r)
             else
-              let '(n, ek) := stream_end sizes cutk (length ms) in
+              let '(n, ek) := match sfail with
+                              | Some (k, hdr) => (k, source_error_end hdr)
+                              | None => stream_end sizes cutk (length ms)
+                              end in
               let r := if N.eqb mode 1 then import fresh_impl base 0 empty_dshard ms n ek
                        else restore base empty_dshard ms n ek in
               (r, match r with Some _ => true | None => false end) in
